@@ -28,7 +28,7 @@ def split_container(raw):
     return ver, raw[12:end], nleases
 
 
-def parse_share(share):
+def parse_share(share, lenient_ueb=False):
     if len(share) < 4:
         raise Bad("share shorter than version word")
     (ver,) = struct.unpack(">L", share[:4])
@@ -43,17 +43,20 @@ def parse_share(share):
     if len(share) < hdr:
         raise Bad("share shorter than offset table")
     (_v, block_size, data_size, o_data, o_pt, o_ct, o_bh, o_sh, o_ueb) = struct.unpack(fmt, share[:hdr])
-    if not (hdr <= o_data <= o_pt <= o_ct <= o_bh <= o_sh <= o_ueb <= len(share)):
+    # (the plaintext_hash_tree offset is unused by every reader; it is not constrained here)
+    if not (hdr <= o_data <= o_ct <= o_bh <= o_sh <= o_ueb <= len(share)):
         raise Bad("offsets not monotone / out of range")
     fsz = struct.calcsize(fs)
     if o_ueb + fsz > len(share):
         raise Bad("UEB length field past end")
     (ueb_len,) = struct.unpack(fs, share[o_ueb:o_ueb + fsz])
     ueb = share[o_ueb + fsz:o_ueb + fsz + ueb_len]
-    if len(ueb) != ueb_len:
+    if len(ueb) != ueb_len and not lenient_ueb:
+        # (a reader whose over-long read is clipped by the server still obtains the whole UEB when
+        # the UEB is the last thing in the share; lenient_ueb models that reader)
         raise Bad("UEB truncated")
     return {"version": ver, "block_size": block_size, "data_size": data_size,
-            "data": share[o_data:o_pt], "crypttext_tree": share[o_ct:o_bh], "block_tree": share[o_bh:o_sh],
+            "data": share[o_data:o_ct], "crypttext_tree": share[o_ct:o_bh], "block_tree": share[o_bh:o_sh],
             "share_chain": share[o_sh:o_ueb], "ueb": ueb,
             "offsets": {"data": o_data, "plaintext_hash_tree": o_pt, "crypttext_hash_tree": o_ct,
                         "block_hashes": o_bh, "share_hashes": o_sh, "uri_extension": o_ueb},
@@ -103,9 +106,9 @@ def seg_geometry(size, segment_size, k):
     return nseg, blocks, segs
 
 
-def validate_share(share, shnum, cap):
+def validate_share(share, shnum, cap, lenient_ueb=False):
     """cap: dict(ueb_hash, k, n, size).  Returns (ueb dict, [blocks]) or raises Bad."""
-    p = parse_share(share)
+    p = parse_share(share, lenient_ueb)
     if H.ueb_hash(p["ueb"]) != cap["ueb_hash"]:
         raise Bad("UEB hash mismatch")
     ueb = unpack_ueb(p["ueb"])
@@ -211,14 +214,14 @@ def parse_chk_cap(cap):
     return {"key": a2b(parts[2]), "ueb_hash": a2b(parts[3]), "k": int(parts[4]), "n": int(parts[5]), "size": int(parts[6])}
 
 
-def good_shares_on_disk(servers, si, cap):
+def good_shares_on_disk(servers, si, cap, lenient_ueb=False):
     """{shnum: set(server names)} of shares that fully validate, plus the parsed pieces."""
     where, pieces = {}, {}
     for s in servers:
         for shnum, raw in s.shares_of(si).items():
             try:
                 ver, share, nl = split_container(raw)
-                v = validate_share(share, shnum, cap)
+                v = validate_share(share, shnum, cap, lenient_ueb)
             except (Bad, struct.error, ValueError, KeyError, IndexError):
                 continue
             where.setdefault(shnum, set()).add(s.name)
